@@ -143,6 +143,10 @@ def readHdu (F : Nat) (bs : Bytes) : Option (Hdu × Bytes) :=
     | none => none
     | some len =>
       if (rest.take (roundUp len)).length = roundUp len then some (⟨cards, some (rest.take len)⟩, rest.drop (roundUp len))
+      else if (rest.take len).length = len then
+        -- all data bytes are there but not the whole padding: cfitsio reads images of three or more blocks directly
+        -- and does not miss the padding (for smaller images it does; the model is the more permissive of the two)
+        some (⟨cards, some (rest.take len)⟩, [])
       else some (⟨cards, none⟩, [])
 
 /-- All HDUs up to the first one whose header cannot be read (which, as for cfitsio, is where the file ends). -/
